@@ -56,7 +56,7 @@ func runC06(c *core.Ctx) {
 	c.Floor("R06.2", 2)
 	c.Floor("R06.3", 15)
 	c.Floor("R06.4", 1)
-	c.Floor("R06.5", 2)
+	c.Floor("R06.5", 3)
 	c.Floor("R06.6", 15)
 	c.Floor("R06.7", 15)
 }
@@ -511,8 +511,40 @@ func r06Rename(c *core.Ctx, p *load.Program) {
 		}
 	}
 	if create == nil {
+		// created some other way (Create, WriteFullFile…): the source's mode cannot be passed
+		var other *ssa.Call
+		ssax.Instrs(rn, func(ins ssa.Instruction) {
+			if cl, ok := ins.(*ssa.Call); ok && (ssax.CalleeIs(cl, mod, "Create") || ssax.CalleeIs(cl, mod, "WriteFullFile")) {
+				other = cl
+			}
+		})
+		if other != nil {
+			c.Bad("R06.5", "mount.Rename|destination-mode", p.Pos(other.Pos()), fmt.Sprintf("mount.Rename creates the destination with %s, which cannot carry the source file's mode: a file renamed across mounts arrives with the default permissions instead of its own", ssax.CallName(other)))
+			return
+		}
 		c.Hard("anchor: destination OpenFile in mount.Rename")
 		return
+	}
+	// the destination carries the source's mode: passed to OpenFile (applies on create) and set with Chmod (applies
+	// when the destination existed) before the source is removed
+	isSourceMode := func(v ssa.Value) bool {
+		cl, ok := v.(*ssa.Call)
+		return ok && cl.Call.IsInvoke() && cl.Call.Method.Name() == "Mode"
+	}
+	modeOK := len(create.Call.Args) >= 4 && isSourceMode(create.Call.Args[3])
+	var chmod *ssa.Call
+	ssax.Instrs(rn, func(ins ssa.Instruction) {
+		if cl, ok := ins.(*ssa.Call); ok && ssax.CalleeIs(cl, mod, "Chmod") && len(cl.Call.Args) == 3 && cl.Call.Args[0] == create.Call.Args[0] && cl.Call.Args[1] == create.Call.Args[1] && isSourceMode(cl.Call.Args[2]) {
+			chmod = cl
+		}
+	})
+	switch {
+	case !modeOK:
+		c.Bad("R06.5", "mount.Rename|destination-mode", p.Pos(create.Pos()), "mount.Rename does not pass the source's Mode() to the OpenFile that creates the destination: the renamed file arrives with other permissions")
+	case chmod == nil:
+		c.Bad("R06.5", "mount.Rename|destination-mode", p.Pos(create.Pos()), "mount.Rename passes the source's mode to OpenFile only: OpenFile applies it when it creates the file, so an existing destination that is overwritten keeps its old mode — Chmod(destination, source mode) is missing")
+	default:
+		c.OK("R06.5", "mount.Rename|destination-mode", p.Pos(create.Pos()), "the source's mode is passed to OpenFile and set with Chmod for an existing destination")
 	}
 	newFS, newSub := create.Call.Args[0], create.Call.Args[1]
 	dest := ssax.ExtractOf(create, 0)
